@@ -652,7 +652,8 @@ std::string render_parse(const uint8_t *bytes, size_t n, int base) {
     ref::Parsed<unsigned long long> pu = ref::c_strtoull(z.data(), base);
     return "C12 parse base=" + verif::num(base) + " text=" + verif::quoted(std::string((const char *)bytes, n)) + " (" + verif::unum(n) + " bytes) -> strtoll " +
            verif::num(p.value) + (p.range ? " (ERANGE)" : "") + ", strtoull " + verif::unum(pu.value) + (pu.range ? " (ERANGE)" : "") + ", consumed " +
-           verif::unum(p.consumed) + " => ok=" + (p.consumed ? "1" : "0") + " full_match=" + (p.consumed == n ? "1" : "0") + "; all 8 to_* members compared";
+           verif::unum(p.consumed) + " => ok=" + (p.consumed ? "1" : "0") + " full_match=" + (p.consumed == n ? "1" : "0") +
+           "; all to_* members (to_int64/to_uint64 too" + (base == 0 ? ", to_bool, default-base overloads" : "") + ") compared, also with re-used conversion_result objects";
 }
 
 int base_from_code(unsigned code) { unsigned k = code % 36; return k == 0 ? 0 : int(k + 1); }   // 0 -> base 0, 1..35 -> 2..36
